@@ -236,9 +236,35 @@ def outer_tag(t):
     return (0, UNIVERSAL_NUMBER[t['k']])
 
 
-def random_type(rng, depth, top=True):
-    """a legal ASN.1 type: members of one constructed type carry pairwise distinct outermost tags (stronger than X.680
-    requires for SEQUENCE, exactly what it requires for SET and CHOICE); CHOICE members are explicitly tagged"""
+ANY_VALUES = [b'\x02\x01\x05', b'\x04\x00', b'\x30\x03\x01\x01\xff', b'\x0c\x02hi']
+
+
+def static_tags(t):
+    """the set of outermost tags an encoding of a value of t can start with (untagged CHOICE: those of its alternatives)"""
+    if t['tags']:
+        m, c, n = t['tags'][-1]
+        return {(c, n)}
+    if t['k'] == 'CHOICE':
+        out = set()
+        for n, ft, m in t['fields']:
+            out |= static_tags(ft)
+        return out
+    return {(0, UNIVERSAL_NUMBER[t['k']])}
+
+
+def allowed_values(t):
+    vs = leaf_values(t['k'])[:10]
+    if 'range' in t:
+        vs = [v for v in vs if t['range'][0] <= v <= t['range'][1]]
+    if 'size' in t:
+        vs = [v for v in vs if t['size'][0] <= len(v) <= t['size'][1]]
+    return vs
+
+
+def random_type(rng, depth, top=True, rich=True):
+    """a legal ASN.1 type: members of one constructed type have pairwise disjoint sets of outermost tags (stronger than
+    X.680 requires for SEQUENCE, exactly what it requires for SET and CHOICE); `rich` adds untagged CHOICE members,
+    DEFAULT members of constructed type, explicitly tagged ANY members and value-range / SIZE constraints"""
     kinds = list(RANDOM_LEAVES) * 2
     if depth > 0:
         kinds += ['SEQUENCE', 'SET', 'SEQUENCEOF', 'SETOF', 'CHOICE'] * 5
@@ -247,40 +273,60 @@ def random_type(rng, depth, top=True):
     if rng.random() < 0.25 and k != 'CHOICE':
         ts = [(rng.choice('IE'), rng.choice((CTX, APP, PRIV)), rng.choice((0, 1, 30, 31, 127, 128, 16384)))]
     if k in RANDOM_LEAVES:
-        return T(k, ts)
+        t = T(k, ts)
+        if rich and rng.random() < 0.2:
+            if k == 'INTEGER':
+                t['range'] = rng.choice([(-129, 256), (0, 2 ** 31), (-2 ** 63, 2 ** 64 + 1)])
+            elif k in ('OCTETSTRING', 'UTF8String', 'IA5String'):
+                t['size'] = rng.choice([(0, 7), (0, 200), (1, 128)])
+            if not allowed_values(t):
+                t.pop('range', None)
+                t.pop('size', None)
+        return t
     if k in ('SEQUENCEOF', 'SETOF'):
-        elem = random_type(rng, depth - 1, top=False)
-        if elem['k'] == 'CHOICE' and not elem['tags']:
+        elem = random_type(rng, depth - 1, top=False, rich=rich)
+        if elem['k'] == 'CHOICE' and not elem['tags'] and not (rich and rng.random() < 0.5):
             elem = dict(elem, tags=[('E', CTX, 0)])
-        return T(k, ts, elem=elem)
+        t = T(k, ts, elem=elem)
+        if rich and rng.random() < 0.2:
+            t['size'] = rng.choice([(0, 3), (0, 8), (1, 3)])
+        return t
     n = rng.randrange(0 if k != 'CHOICE' else 1, 5)
     fields, used = [], set()
     for i in range(n):
-        ft = random_type(rng, depth - 1, top=False)
-        if ft['k'] == 'CHOICE':
+        if rich and rng.random() < 0.06:
+            ft = T('ANY', [('E', CTX, i)])
+        else:
+            ft = random_type(rng, depth - 1, top=False, rich=rich)
+        if ft['k'] == 'CHOICE' and not ft['tags'] and not (rich and rng.random() < 0.5 and not (static_tags(ft) & used)):
             ft = dict(ft, tags=list(ft['tags']) + [('E', CTX, i)])
-        elif outer_tag(ft) in used or rng.random() < 0.4:
+        elif ft['k'] != 'CHOICE' and ft['k'] != 'ANY' and (static_tags(ft) & used or rng.random() < 0.4):
             ft = dict(ft, tags=list(ft['tags']) + [(rng.choice('IE'), CTX, i)])
-        if outer_tag(ft) in used:
+        if static_tags(ft) & used:
             ft = dict(ft, tags=list(ft['tags']) + [('E', PRIV, 100 + i)])
-        used.add(outer_tag(ft))
+        used |= static_tags(ft)
         mode = 'req'
         if k != 'CHOICE':
             r = rng.random()
             if r < 0.3:
                 mode = 'opt'
             elif r < 0.45 and ft['k'] in RANDOM_LEAVES:
-                mode = ('default', rng.choice(leaf_values(ft['k'])[:6]))
+                mode = ('default', rng.choice(allowed_values(ft)))
+            elif rich and r < 0.5 and ft['k'] in ('SEQUENCE', 'SET', 'SEQUENCEOF', 'SETOF'):
+                mode = ('default', random_value(rng, ft))
         fields.append(('f%d' % i, ft, mode))
     return T(k, ts, fields=fields)
 
 
 def random_value(rng, t):
     k = t['k']
+    if k == 'ANY':
+        return rng.choice(ANY_VALUES)
     if k in RANDOM_LEAVES:
-        return rng.choice(leaf_values(k)[:10])
+        return rng.choice(allowed_values(t))
     if k in ('SEQUENCEOF', 'SETOF'):
-        return [random_value(rng, t['elem']) for _ in range(rng.randrange(0, 4))]
+        lo, hi = t.get('size', (0, 3))
+        return [random_value(rng, t['elem']) for _ in range(rng.randrange(lo, min(hi, 3) + 1))]
     if k == 'CHOICE':
         n, ft, m = rng.choice(t['fields'])
         return (n, random_value(rng, ft))
@@ -294,11 +340,12 @@ def random_value(rng, t):
     return v
 
 
-def random_pairs(seed, n, depth=3):
+def random_pairs(seed, n, depth=3, rich=None):
     rng = random.Random(seed * 7919 + 13)
     out = []
     while len(out) < n:
-        t = random_type(rng, depth)
+        # the first half keeps the plain generator (same pairs as before for the same seed), the rest is `rich`
+        t = random_type(rng, depth, rich=(len(out) >= n // 2) if rich is None else rich)
         if t['k'] in RANDOM_LEAVES:
             continue
         for _ in range(2):
